@@ -155,11 +155,12 @@ Print Assumptions C20_power_codes.
 Example C20_options_nonvacuous :
   let ss := [SVal "t" (num_str true 130) false; SVal "H" "10.0.0.1" true; SFlag "v"; SVal "L" "Operator" false;
              SVal "t" (num_str false 114) true] in
-  Forall (setting_ok "t:hvVI:H:U:P:L:o:b:p:r:J" option_table) ss /\ rest_ok ["raw"; "0x06"; "1"] /\
+  exists so idx, getopt_shortopts = Some so /\
+  Forall (setting_ok so option_table) ss /\ rest_ok ["raw"; "0x06"; "1"] /\
   main_model (fun _ => Err (OtherError OtherExc)) commands getopt_shortopts getopt_longopts option_table option_defaults
              interface_names (render_settings ss ++ ["raw"; "0x06"; "1"])
-  = Run (mkPlan "aardvark" [] 18 ["0x06"; "1"] (Some 114%Z) None (Some (mkSession "10.0.0.1" 623 "" "" 3)) true false).
+  = Run (mkPlan "aardvark" [] idx ["0x06"; "1"] (Some 114%Z) None (Some (mkSession "10.0.0.1" 623 "" "" 3)) true false).
 Proof.
-  cbv zeta. split; [|split; [reflexivity | vm_compute; reflexivity]].
+  cbv zeta. eexists. eexists. split; [reflexivity|]. split; [|split; [reflexivity | vm_compute; reflexivity]].
   repeat constructor; try discriminate; vm_compute; discriminate.
 Qed.
